@@ -74,8 +74,8 @@ class Pi(schemes.interface.inverted_index_sse.InvertedIndexSSE):
             cipher_list = [self.config.ske.Encrypt(Ki, identifier) for identifier in padded_database[keyword]]
             di = b"".join(cipher_list)
 
-            # math.ceil(t / 8) --> max_bytes represent |DB(w)|
-            ni_prime = self.config.ske.Encrypt(Ki_prime, int_to_bytes(ni, math.ceil(t / 8)))
+            # math.ceil((t + 1) / 8) --> max_bytes represent |DB(w)| <= 2^t
+            ni_prime = self.config.ske.Encrypt(Ki_prime, int_to_bytes(ni, math.ceil((t + 1) / 8)))
             T_list[pi].append((li, di))
             S.append((li_prime, ni_prime))
 
@@ -86,9 +86,11 @@ class Pi(schemes.interface.inverted_index_sse.InvertedIndexSSE):
             T_list[i].extend(
                 ((os.urandom(self.config.param_l), os.urandom(d_len)) for _ in range((2 ** (t - i)) - len(T_list[i]))))
 
-        # padding list S to N elements
+        # padding list S to N elements, dummy values are as long as real (encrypted) ones
+        ni_prime_len = len(self.config.ske.Encrypt(b"\x00" * self.config.param_k_prime,
+                                                   b"\x00" * math.ceil((t + 1) / 8)))
         S.extend(
-            ((os.urandom(self.config.param_l_prime), os.urandom(math.ceil(t / 8)))
+            ((os.urandom(self.config.param_l_prime), os.urandom(ni_prime_len))
              for _ in range(N - len(S)))
         )
 
